@@ -565,6 +565,64 @@ class Executor:
         self._impl_cache[site] = ty
         return ty
 
+    def closure_target(self, t):
+        """The MIR body of a closure value (an aggregate `{closure@file:l:c: l:c}{captures}` or a zero-sized constant)."""
+        while t[0] == "addr":
+            t = t[1]
+        txt = None
+        if t[0] == "aggr" and isinstance(t[1], str) and "{closure@" in t[1]:
+            txt = t[1]
+        elif t[0] == "c" and isinstance(t[2], str) and "{closure@" in t[2]:
+            txt = t[2]
+        if txt is None:
+            return None
+        m = re.search(r"\{closure@([^}]+)\}", txt)
+        if not m:
+            return None
+        hits = [f for M in self.modules for f in M.funcs if "{closure#" in f.name and f.args and ("{closure@%s}" % m.group(1)) in f.args[0][1]]
+        return hits[0] if len(hits) == 1 else None
+
+    def pipeline_stages(self, t):
+        """[(source term, [(kind, closure body, closure value)])] - one entry per iterator source - for a pipeline built from
+        map / filter / filter_map over iterator sources joined by chain; None if it has another shape (then the call
+        stays uninterpreted)."""
+        while t[0] == "addr":
+            t = t[1]
+        if t[0] != "app":
+            return None
+        base = t[1].split("::")[-1]
+        if base in ("map", "filter", "filter_map") and "Iterator" in t[1] and len(t[2]) == 2:
+            cf = self.closure_target(t[2][1])
+            ctor = None
+            if cf is None and base == "map" and t[2][1][0] == "c" and isinstance(t[2][1][2], str):
+                path = mp.strip_generics(t[2][1][2].replace("ZeroSized: ", ""))
+                ev = self.enums.split(path)
+                if ev:
+                    ctor = ev            # `.map(Enum::Variant)`: wraps the element
+                else:
+                    mm = re.search(r"(?:^|::)([A-Z]\w*)::([A-Z]\w*)$", path)
+                    if mm:
+                        ctor = (mm.group(1), mm.group(2))     # a tuple-variant constructor of a third-party enum
+            if ctor is None and (cf is None or len(cf.args) != 2 or cf in self._inline_stack):
+                return None
+            inner = self.pipeline_stages(t[2][0])
+            if inner is None:
+                return None
+            stage = ("ctor", ctor, None) if ctor is not None else (base, cf, t[2][1])
+            return [(src, st + [stage]) for src, st in inner]
+        if base == "chain" and "Iterator" in t[1] and len(t[2]) == 2:
+            a, b = self.pipeline_stages(t[2][0]), self.pipeline_stages(t[2][1])
+            if a is None or b is None:
+                return None
+            return a + b
+        if base in ("cloned", "copied", "by_ref", "fuse") and "Iterator" in t[1]:
+            return self.pipeline_stages(t[2][0])
+        if re.search(r"(::iter|::iter_mut|IntoIterator::into_iter|::values|::keys|::into_values|::into_keys|::drain|Option::iter|::into_iter)$", t[1]):
+            return [(t, [])]
+        if "Iterator" in t[1] and base in ("flat_map", "flatten", "zip", "enumerate", "rev", "skip", "take", "skip_while", "take_while", "step_by", "peekable"):
+            return [(t, [])]     # an opaque source: its elements are arbitrary
+        return None
+
     def should_inline(self, f):
         if any(r.search(f.name) for r in self.inline):
             return True
@@ -1150,6 +1208,149 @@ class Executor:
             outs.append(Outcome("diverge", None, st, info, func))
             return None
         res = None
+        # `iter.try_for_each(closure)` / `iter.for_each(closure)` is a loop in disguise: run it like one - the path
+        # either sees no (further) element, or one arbitrary element whose closure body is executed in place; a body
+        # that asks to go on ends the path as a back edge, exactly as the `for` form of the same loop would
+        mt = re.search(r"Iterator(?:<.*?>)?>?::(try_for_each|for_each)(?:::<.*>)?$", STD_PREFIX.sub("", callee))
+        if mt and self.summaries and len(args) == 2 and ret is not None:
+            cf = self.closure_target(args[1])
+            if cf is not None and cf not in self._inline_stack and len(cf.args) == 2:
+                self.summaries_used.add("Iterator::%s (executed as a loop: no element / one arbitrary element through the closure body)" % mt.group(1))
+                it = self.export(st, args[0])
+                nxt = ("app", "Iter.Iterator::next", (("addr", it),))
+                dty = func.locals.get(dest[1], "") if dest is not None else ""
+                if mt.group(1) == "for_each":
+                    neutral = UNIT
+                elif "ControlFlow" in dty:
+                    neutral = ("variant", "ControlFlow", "Continue", (UNIT,))
+                elif "Option" in dty.split("<")[0]:
+                    neutral = ("variant", "Option", "Some", (UNIT,))
+                else:
+                    neutral = ("variant", "Result", "Ok", (UNIT,))
+                # (A) exhausted
+                s0 = st.copy()
+                s0.events.append(("loop", func.short, "iter:" + mt.group(1), None))
+                s0.events.append(("call", "Iter.Iterator::next", (("addr", it),), nxt))
+                if s0.assume_eq(disc_of(nxt, self.enums), 0):
+                    if dest is not None:
+                        self.write_placekey(s0, (fr, func, dest[1], dest[2]), neutral)
+                    work.append((ret, s0))
+                # (B) one arbitrary element
+                s1 = st.copy()
+                s1.events.append(("loop", func.short, "iter:" + mt.group(1), None))
+                s1.events.append(("call", "Iter.Iterator::next", (("addr", it),), nxt))
+                if s1.assume_eq(disc_of(nxt, self.enums), 1):
+                    elem = proj(proj(nxt, ("v", "Some"), self.enums), ("f", 0), self.enums)
+                    clo = args[1]
+                    carg = ("addr", clo) if cf.args[0][1].strip().startswith("&") else clo
+                    fr2 = next(self.frame_seq)
+                    self._inline_stack.append(cf)
+                    try:
+                        sub = self.run(cf, [carg, elem], s1, fr2, depth + 1, _count=False)
+                    finally:
+                        self._inline_stack.pop()
+                    for o in sub:
+                        if o.kind != "return":
+                            outs.append(o)
+                            continue
+                        if mt.group(1) == "for_each":
+                            outs.append(Outcome("backedge", None, o.state, {"loop": "iter:for_each", "head": -900000}, func))
+                            continue
+                        d = disc_of(o.ret, self.enums)
+                        goes_on = 1 if neutral[2] == "Some" else 0
+                        if d[0] == "c":
+                            cases = [(d[2] == goes_on, o.state)]
+                        else:
+                            sa, sb = o.state.copy(), o.state.copy()
+                            cases = ([(True, sa)] if sa.assume_eq(d, goes_on) else []) + ([(False, sb)] if sb.assume_ne(d, {goes_on}) else [])
+                        for on, s2 in cases:
+                            if on:
+                                outs.append(Outcome("backedge", None, s2, {"loop": "iter:try_for_each", "head": -900000}, func))
+                            else:
+                                if dest is not None:
+                                    self.write_placekey(s2, (fr, func, dest[1], dest[2]), o.ret)
+                                work.append((ret, s2))
+                return None
+        # `source.filter(p).map(f)...collect()` is a loop in disguise too: no element, or one arbitrary element pushed
+        # through the closures of the pipeline; what reaches the end is logged as `collect::item(pipeline, value)` and the
+        # path ends as a back edge - the `for` form of the same loop looks the same up to that event's name
+        mc = re.search(r"Iterator(?:<.*?>)?>?::collect(?:::<.*>)?$", STD_PREFIX.sub("", callee))
+        if mc and self.summaries and len(args) == 1 and ret is not None:
+            chain = self.pipeline_stages(self.export(st, args[0]))
+            if chain is not None and any(stages for _, stages in chain):
+                self.summaries_used.add("Iterator::collect over map/filter/filter_map/chain closures (executed as a loop: no element / one arbitrary element)")
+                pipe = self.export(st, args[0])
+                self._emul_seq = getattr(self, "_emul_seq", 0) + 1
+                head = -self._emul_seq
+                s0 = st.copy()
+                s0.events.append(("loop", func.short, "iter:collect", None))
+                okz = True
+                for src, _ in chain:
+                    nxt = ("app", "Iter.Iterator::next", (("addr", src),))
+                    s0.events.append(("call", "Iter.Iterator::next", (("addr", src),), nxt))
+                    okz = okz and s0.assume_eq(disc_of(nxt, self.enums), 0)
+                if okz:
+                    r0 = ("app", fs, (pipe,))
+                    s0.events.append(("call", fs, (pipe,), r0))
+                    if dest is not None:
+                        self.write_placekey(s0, (fr, func, dest[1], dest[2]), r0)
+                    work.append((ret, s0))
+                for k, (src, stages) in enumerate(chain):
+                    nxt = ("app", "Iter.Iterator::next", (("addr", src),))
+                    s1 = st.copy()
+                    s1.events.append(("loop", func.short, "iter:collect", None))
+                    s1.events.append(("call", "Iter.Iterator::next", (("addr", src),), nxt))
+                    if not s1.assume_eq(disc_of(nxt, self.enums), 1):
+                        continue
+                    elem = proj(proj(nxt, ("v", "Some"), self.enums), ("f", 0), self.enums)
+                    info = {"loop": "iter:collect", "head": head - k * 1000}
+                    todo = [(0, s1, elem)]
+                    while todo:
+                        i, sx, val = todo.pop()
+                        if i == len(stages):
+                            sx.events.append(("call", "collect::item", (pipe, val), UNIT))
+                            outs.append(Outcome("backedge", None, sx, dict(info), func))
+                            continue
+                        kind, cf, clo = stages[i]
+                        if kind == "ctor":
+                            todo.append((i + 1, sx, ("variant", cf[0], cf[1], (val,))))
+                            continue
+                        carg = ("addr", clo) if cf.args[0][1].strip().startswith("&") else clo
+                        varg = ("addr", val) if kind == "filter" else val
+                        fr2 = next(self.frame_seq)
+                        self._inline_stack.append(cf)
+                        try:
+                            sub = self.run(cf, [carg, varg], sx, fr2, depth + 1, _count=False)
+                        finally:
+                            self._inline_stack.pop()
+                        for o in sub:
+                            if o.kind != "return":
+                                outs.append(o)
+                                continue
+                            if kind == "map":
+                                todo.append((i + 1, o.state, o.ret))
+                            elif kind == "filter":
+                                for want in (True, False):
+                                    s2 = o.state.copy()
+                                    okb = (o.ret == (TRUE if want else FALSE)) if o.ret in (TRUE, FALSE) else s2.assume_eq(o.ret, want)
+                                    if not okb:
+                                        continue
+                                    if want:
+                                        todo.append((i + 1, s2, val))
+                                    else:
+                                        outs.append(Outcome("backedge", None, s2, dict(info, skipped=True), func))
+                            else:   # filter_map
+                                d = disc_of(o.ret, self.enums)
+                                for want in (1, 0):
+                                    s2 = o.state.copy()
+                                    okb = (d[2] == want) if d[0] == "c" else s2.assume_eq(d, want)
+                                    if not okb:
+                                        continue
+                                    if want:
+                                        todo.append((i + 1, s2, proj(proj(o.ret, ("v", "Some"), self.enums), ("f", 0), self.enums)))
+                                    else:
+                                        outs.append(Outcome("backedge", None, s2, dict(info, skipped=True), func))
+                return None
         mu = re.match(r"^(Option|Result)::<.*>::(unwrap|expect)$", STD_PREFIX.sub("", callee))
         if mu and self.summaries:
             self.summaries_used.add("%s::%s (forks: value / panic)" % (mu.group(1), mu.group(2)))
